@@ -231,7 +231,7 @@ def spec(ctx, tier, seed):
             for key_ in ('a', 'b'):
                 if key_ in s: s[key_] = min(s[key_], k - 1) if k > 0 else 0
         # the number of schedules grows with (messages+2)^polls: long producer scripts get one poll less in the quick tier
-        npolls = (3 if len(sc) <= 4 else 2) if tier == 'quick' else 4
+        npolls = (3 if len(sc) <= 4 else 2) if tier == 'quick' else (4 if len(sc) <= 3 else 3)
         jobs.append(Job('seeded-n3-%d' % i, mod, 'mirror_job', {'n': n, 'script': sc, 'polls': npolls}, stop_after_violations=40))
     # statements / variables are plain machine words: the two largest indices double as terminal markers inside the node table
     jobs.append(Job('extreme-var-indices', mod, 'mirror_job', {'n': 2, 'script': [S, {'op': 'variable', 'var': (1 << 64) - 2}, {'op': 'variable', 'var': 1}, {'op': 'variable', 'var': (1 << 64) - 1},
@@ -243,6 +243,6 @@ def spec(ctx, tier, seed):
             'assumptions': ASSUMPTIONS + ['crossbeam unbounded channel is FIFO, lossless and non-duplicating; real threads are replaced by the prefix-visibility argument (module docstring)',
                                           'the producer does not observe its receivers'],
             'bounds': 'producer scripts: one symbolic (quick: a 2-variable function xor a variable; thorough: two 2-variable functions and a conjunction) and seeded 3-variable scripts of 2-4 operations; relay chain of length 2; '
-                      '%d polls (%d thorough), each by relay or last (both explored), each with a symbolic non-decreasing visibility cut in [0,K] and an unconstrained symbolic 64-bit requested handle; '
+                      'up to %d polls (thorough: %d for producer scripts of at most three operations, else 3), each by relay or last (both explored), each with a symbolic non-decreasing visibility cut in [0,K] and an unconstrained symbolic 64-bit requested handle; '
                       'final drain of both hops. Bounded channels (capacity 1 and 2): the relay is scheduled exactly when the producer would block' % (3, 4),
             'outside': 'more polls; chains longer than 2; a visibility cut inside the relay-to-last hop is subsumed by a later poll (argued, not executed); OS-level thread scheduling itself'}
